@@ -187,7 +187,21 @@ func init() {
 			if len(t.Categories) == 1 {
 				retained = t.Categories[0].Retained
 			}
-			return []V{VL(VS("ok"), VB(retained), c12OptPct(combo.Percent), c12OptPct(combo.Surcharge), c12ExtV(combo.Ext))}
+			out := []V{VL(VS("ok"), VB(retained), c12OptPct(combo.Percent), c12OptPct(combo.Surcharge), c12ExtV(combo.Ext))}
+			// history: the caller goes on to edit ITS combo (as decoding JSON into an existing document does).
+			// The values a combo received must be copies: if they still point into the regime's table, every
+			// later lookup in this process (the following cases) sees the edit and differs from the model.
+			if combo.Percent != nil {
+				*combo.Percent = num.MakePercentage(777, 3)
+			}
+			if combo.Surcharge != nil {
+				*combo.Surcharge = num.MakePercentage(77, 3)
+			}
+			if combo.Ext != nil {
+				combo.Ext["zz-history"] = "x"
+			}
+			_ = json.Unmarshal([]byte(`{"percent":"66.6%","surcharge":"6.6%","ext":{"zz-history2":"y"}}`), combo)
+			return out
 		case "invoice":
 			return c12Invoice(a)
 		case "date":
